@@ -143,6 +143,11 @@ class SmartList(list):
             if obj is not replaced and obj is not value and obj.name == value.name:
                 raise KeyError("Object with the same name already exists! " + str(value))
 
+        # A Section must not be placed below itself.
+        owner = getattr(replaced, "_parent", None)
+        if owner is not None and hasattr(value, "_sections"):
+            owner._refuse_own_ancestor(value)
+
         # If required remove new object from its old parents child-list
         if hasattr(value, "_parent") and (value._parent and value in value._parent):
             value._parent.remove(value)
@@ -257,6 +262,21 @@ class Sectionable(BaseObject):
         """
         return self._sections
 
+    def _refuse_own_ancestor(self, section):
+        """
+        A Section can neither become a child of itself nor of one of its own
+        sub-Sections: the result would be a cycle, not a tree.
+        Raises a ValueError before anything is changed.
+
+        :param section: the Section that is about to be added below self.
+        """
+        node = self
+        while node is not None:
+            if node is section:
+                raise ValueError("A Section cannot be added to itself or to "
+                                 "one of its own sub-Sections.")
+            node = node.parent
+
     def insert(self, position, section):
         """
         Insert a Section at the child-list position. A ValueError will be raised,
@@ -270,6 +290,7 @@ class Sectionable(BaseObject):
             if section.name in self._sections:
                 raise ValueError("Section with name '%s' already exists." % section.name)
 
+            self._refuse_own_ancestor(section)
             self._sections.insert(position, section)
             section._parent = self
         else:
@@ -283,6 +304,7 @@ class Sectionable(BaseObject):
         """
         from odml.section import BaseSection
         if isinstance(section, BaseSection):
+            self._refuse_own_ancestor(section)
             self._sections.append(section)
             section._parent = self
         elif isinstance(section, Iterable) and not isinstance(section, str):
@@ -309,6 +331,7 @@ class Sectionable(BaseObject):
             if isinstance(sec, BaseSection) and \
                     (sec.name in self._sections or sec.name in new_names):
                 raise KeyError("Section with name '%s' already exists." % sec.name)
+            self._refuse_own_ancestor(sec)
             new_names.append(sec.name)
 
         for sec in sec_list:
